@@ -20,17 +20,30 @@ const IN_IGNORED: u32 = 0x8000;
 const IN_Q_OVERFLOW: u32 = 0x4000;
 const BUF_SIZE: usize = 16 + 255 + 1;
 
+/// Scratch entries of this process: three directories, two files and a hard
+/// link to each file (watching a link yields the watch descriptor of the
+/// file: same inode).
 fn scratch() -> &'static Vec<PathBuf> {
     static DIRS: OnceLock<Vec<PathBuf>> = OnceLock::new();
     DIRS.get_or_init(|| {
         let base = std::env::temp_dir().join(format!("a10sim-{}", std::process::id()));
-        (0..3)
+        let mut all: Vec<PathBuf> = (0..3)
             .map(|i| {
                 let d = base.join(format!("w{i}"));
                 std::fs::create_dir_all(&d).expect("scratch dir");
                 d
             })
-            .collect()
+            .collect();
+        for i in 0..2 {
+            let f = base.join(format!("f{i}.txt"));
+            std::fs::write(&f, b"x").expect("scratch file");
+            let l = base.join(format!("l{i}.txt"));
+            let _ = std::fs::remove_file(&l);
+            std::fs::hard_link(&f, &l).expect("scratch link");
+            all.push(f);
+            all.push(l);
+        }
+        all
     })
 }
 
@@ -73,7 +86,7 @@ fn draw_record(nwatches: i32) -> Record {
         3 => IN_IGNORED,
         4 => IN_Q_OVERFLOW,
         5 => 0x400,               // IN_DELETE_SELF
-        6 => 1 << tape::choose(site::DATA, 13),
+        6 => 1 << tape::choose(site::DATA, 14), // includes IN_UNMOUNT (0x2000)
         _ => 0x200 | 0x40,        // IN_DELETE | IN_MOVED_FROM
     };
     let name_len = match tape::choose(site::DATA, 8) {
@@ -99,11 +112,23 @@ fn draw_record(nwatches: i32) -> Record {
     }
 }
 
-#[derive(Debug, PartialEq)]
+#[derive(Debug)]
 struct Seen {
     mask: u32,
     name: Vec<u8>,
     path: PathBuf,
+    /// Compare the path byte for byte (else as paths: "dir/" == "dir").
+    exact: bool,
+}
+
+impl PartialEq for Seen {
+    fn eq(&self, other: &Seen) -> bool {
+        use std::os::unix::ffi::OsStrExt;
+        self.mask == other.mask
+            && self.name == other.name
+            && self.path == other.path
+            && (!(self.exact || other.exact) || self.path.as_os_str().as_bytes() == other.path.as_os_str().as_bytes())
+    }
 }
 
 fn parse_mask(dbg: &str) -> u32 {
@@ -145,12 +170,75 @@ pub fn inotify() {
         .and_then(|n| n.trim().parse().ok())
         .unwrap_or(-1);
     kernel::with(|k| k.foreign_fds.push(ifd));
-    let dirs = scratch();
-    let nwatches = 1 + tape::choose(site::GEOM, 3) as usize;
-    for d in &dirs[..nwatches] {
-        if let Err(e) = alloc::a10(|| watcher.watch_directory(d.clone(), Interest::ALL, Recursive::No)) {
-            report::harness_error(format!("watch_directory: {e}"));
+    let entries = scratch();
+    // Watches: directories, files, and links to files (a link re-registers the
+    // watch descriptor of its file under another path; the newest path wins).
+    // Model: watch descriptors are handed out 1, 2, ... per instance.
+    let mut watching: Vec<(i32, PathBuf, bool)> = Vec::new(); // (wd, path, is a file)
+    let mut inode_wd: std::collections::BTreeMap<usize, i32> = std::collections::BTreeMap::new();
+    let mut want_mask: std::collections::BTreeMap<i32, u32> = std::collections::BTreeMap::new();
+    let nreg = 1 + tape::choose(site::GEOM, 4) as usize;
+    for _ in 0..nreg {
+        // 0..3: directories, 3/4: file 0 and its link, 5/6: file 1 and its link.
+        let e = match tape::choose(site::GEOM, 8) {
+            0 | 1 | 2 => tape::choose(site::GEOM, 3) as usize,
+            n => n as usize - 3 + 3,
+        }
+        .min(entries.len() - 1);
+        let path = entries[e].clone();
+        let is_file = e >= 3;
+        let inode = if is_file { 3 + (e - 3) / 2 } else { e };
+        // What the caller is interested in (the kernel combines the interests
+        // of repeated registrations of one inode: IN_MASK_ADD).
+        let (interest, bits) = match tape::choose(site::GEOM, 6) {
+            0 => (Interest::ALL, 0xfffu32),
+            1 => (Interest::MODIFY, 0x2),
+            2 => (Interest::OPEN, 0x20),
+            3 => (Interest::CLOSE_WRITE, 0x8),
+            4 => (Interest::CREATE | Interest::DELETE, 0x300),
+            _ => (Interest::METADATA, 0x4),
+        };
+        let res = if is_file {
+            alloc::a10(|| watcher.watch_file(path.clone(), interest))
+        } else {
+            alloc::a10(|| watcher.watch_directory(path.clone(), interest, Recursive::No))
+        };
+        if let Err(e) = res {
+            report::harness_error(format!("watch: {e}"));
             return;
+        }
+        let next = inode_wd.len() as i32 + 1;
+        let wd = *inode_wd.entry(inode).or_insert(next);
+        *want_mask.entry(wd).or_insert(0) |= bits;
+        if let Some(w) = watching.iter_mut().find(|(w, _, _)| *w == wd) {
+            if w.1 != path {
+                stats::inc(C::probe_inotify_rewatch);
+            }
+            w.1 = path;
+        } else {
+            watching.push((wd, path, is_file));
+        }
+    }
+    let nwatches = inode_wd.len();
+    // What the kernel really watches, per watch descriptor (fdinfo of the
+    // inotify instance): the union of the interests registered for it.
+    if let Ok(info) = std::fs::read_to_string(format!("/proc/self/fdinfo/{ifd}")) {
+        let mut have: std::collections::BTreeMap<i32, u32> = std::collections::BTreeMap::new();
+        for line in info.lines().filter(|l| l.starts_with("inotify ")) {
+            let field = |key: &str| line.split_whitespace().find_map(|w| w.strip_prefix(key).map(str::to_string));
+            let wd = field("wd:").and_then(|v| v.parse::<i32>().ok());
+            let mask = field("mask:").and_then(|v| u32::from_str_radix(&v, 16).ok());
+            if let (Some(wd), Some(mask)) = (wd, mask) {
+                have.insert(wd, mask & 0xfff);
+            }
+        }
+        if have != want_mask {
+            violation(
+                "notify.watch-mask",
+                format!(
+                    "the kernel watches {have:x?} (watch descriptor -> event bits), the registrations made ask for {want_mask:x?}"
+                ),
+            );
         }
     }
 
@@ -199,26 +287,29 @@ pub fn inotify() {
     });
 
     // Expected user-visible events.
-    let mut watching: Vec<(i32, PathBuf)> = (0..nwatches).map(|i| (i as i32 + 1, dirs[i].clone())).collect();
     let mut expected: Vec<Seen> = Vec::new();
     for r in &records {
         if r.mask & IN_IGNORED != 0 {
-            watching.retain(|(wd, _)| *wd != r.wd);
+            watching.retain(|(wd, _, _)| *wd != r.wd);
             continue;
         }
         if r.mask & IN_Q_OVERFLOW != 0 {
             continue;
         }
         let name_os = std::ffi::OsStr::from_bytes_lossy_verif(&r.name);
-        let path = match watching.iter().find(|(wd, _)| *wd == r.wd) {
-            Some((_, p)) if r.name.is_empty() => p.clone(),
-            Some((_, p)) => p.join(&name_os),
+        let entry = watching.iter().find(|(wd, _, _)| *wd == r.wd);
+        let path = match entry {
+            Some((_, p, _)) if r.name.is_empty() => p.clone(),
+            Some((_, p, _)) => p.join(&name_os),
             None => PathBuf::from(&name_os),
         };
         expected.push(Seen {
             mask: r.mask,
             name: r.name.clone(),
             path,
+            // An event on a watched file itself: its path must be the file's
+            // path byte for byte ("file.txt/" names nothing).
+            exact: r.name.is_empty() && entry.is_some_and(|e| e.2),
         });
     }
 
@@ -256,7 +347,7 @@ pub fn inotify() {
                         let addr = std::ptr::from_ref(event).cast::<u8>() as usize;
                         let size = std::mem::size_of_val(event);
                         ev!("h event mask={:#x} name_len={} ", parse_mask(&dbg), name.len());
-                        seen.push(Seen { mask: parse_mask(&dbg), name, path });
+                        seen.push(Seen { mask: parse_mask(&dbg), name, path, exact: false });
                         // Safe code may keep the reference (`&'w Event`) for as
                         // long as the watcher is borrowed: across later polls
                         // and across dropping the iterator.
